@@ -14,7 +14,7 @@ for m in sorted(glob.glob(os.path.join(root, 'seeded', '*', 'meta.json'))):
         other.append('outside every property (see meta.json: outside_claim)')
     rows.append((name, d['property'], 'yes' if d.get('confirmed_by_me') else 'NO', ', '.join(caught) or '-', ', '.join(other) or '-', first[:110]))
 with open(os.path.join(root, 'seeded', 'README.md'), 'w') as f:
-    f.write('# Seeded changes\n\nEach directory holds one change produced by an independent sub-agent that saw only the text of one property: `patch.diff`, the demonstration (`demo_test.go.txt`, with `// place at:` and `// run:` lines), `description.md` and `meta.json` (property, what it needs to manifest, what was run to confirm it, and which checks report a VIOLATION on it). Confirmation and check runs are done by `tools/seedcheck.sh <PROP> <mN> [other props]`.\n\n')
+    f.write('# Seeded changes\n\nEach directory holds one change produced by an independent sub-agent that saw only the text of one property: `patch.diff`, the demonstration (`demo_test.go.txt`, with `// place at:` and `// run:` lines), `description.md` and `meta.json` (property, what it needs to manifest, what was run to confirm it, and which checks report a VIOLATION on it). Confirmation and check runs are done by `tools/seedcheck.sh <PROP> <mN> [other props]`. Every `patch.diff` applies to the current `/repo` HEAD (`git -C /repo apply <file>`): seven patches whose context was changed by a later `fix:` commit were ported to the repaired code and confirmed again.\n\n')
     f.write('| change | property | confirmed | caught by | not caught by | summary |\n|---|---|---|---|---|---|\n')
     for r in rows:
         f.write('| ' + ' | '.join(r) + ' |\n')
